@@ -108,7 +108,10 @@ Blank == [world |-> "w0", method |-> "POST", pathk |-> "route", route |-> NA, st
           type |-> NA, unpin |-> NA, body |-> NA, onlyhash |-> NA, pin |-> NA, layout |-> NA,
           trickle |-> NA, chunker |-> NA, cidv |-> NA, raw |-> NA, name |-> NA, repl |-> NA,
           streamerr |-> NA, qk |-> NA, bk |-> NA, enc |-> NA, fault |-> NA, hangup |-> NA, gcerr |-> NA,
-          daemon |-> "up", cluster |-> NA, peerfail |-> NA]
+          daemon |-> "up", cluster |-> NA, peerfail |-> NA, client |-> NA]
+\* client: how the client behaves on its leg besides `hangup`: "upload" = the request body arrives in two halves
+\* with a pause of 3x the proxy's read_header_timeout between them (read_timeout is not set).  Nothing in the
+\* statement depends on how fast the body arrives: the predicates are those of the plain request.
 \* enc: how the fixed part of a pinning endpoint's path is spelled on the wire: "-" plain, "letter" = one or
 \* more letters percent-encoded (/api/v0/pin/%61dd), "slash" = one or more separating slashes as %2F
 \* (/api/v0/pin%2Frm, /api/v0/pin/add%2F<cid>), "both".  The request is the same request: pathk = "route"
@@ -180,11 +183,16 @@ DaemonSlowReqs ==
     {[Blank EXCEPT !.daemon = "slow", !.route = "pin/ls", !.style = "query", !.arg = "none"],
      [Blank EXCEPT !.daemon = "slow", !.route = "pin/add", !.style = "query", !.arg = "cU"],
      [Blank EXCEPT !.daemon = "slow", !.route = "repo/stat"]}
+SlowUploadReqs ==
+    {[Blank EXCEPT !.client = "upload", !.method = m, !.pathk = k, !.qk = q, !.bk = b] :
+        m \in {"POST", "PUT"}, k \in {"api-other", "nm-deep"}, q \in {"none", "simple"}, b \in {"text", "bin", "mp", "large"}} \cup
+    {[Blank EXCEPT !.client = "upload", !.route = "add", !.body = "mp", !.pin = p, !.chunker = ch] :
+        p \in {NA, "false"}, ch \in {NA, "size-16"}}
 RealClusterReqs ==
     {[Blank EXCEPT !.world = "w1", !.method = m, !.route = "repo/stat", !.cluster = "real3", !.peerfail = f] :
         m \in {"POST", "GET", "PUT"}, f \in {NA, "p2", "p3"}}
 Requests == HijackShaped \cup OtherWorlds \cup EncodedSpellings \cup FaultAndHangup \cup PassReqs(PassKinds) \cup
-            DaemonDownReqs \cup DaemonSlowReqs \cup RealClusterReqs
+            DaemonDownReqs \cup DaemonSlowReqs \cup RealClusterReqs \cup SlowUploadReqs
 \* Paths that are not in canonical form ("//", "/./", "/../"): kept apart, see KNOWN finding.
 UncleanRequests == PassReqs({"unclean"})
 
